@@ -310,7 +310,7 @@ func c02MemberGate(r *Run, fn *ssa.Function, ret *ssa.Return, key string, pool s
 	d := fmt.Sprintf("%s is byte for byte a certificate of the trusted pool: the return executes only when %s(%s, leaf) answers true, and that predicate answers false whenever none of its exact comparisons (%s) hits; what it compares with only ever receives certificates that enter the pool's CertPool",
 		what, FuncName(f), poolT, strings.Join(m.seen, "; "))
 	if why != "" {
-		d = fmt.Sprintf("%s is admitted on the word of %s, which is not an exact membership test: %s — a certificate that merely looks like a trusted root (same subject and key, any signature) is handed on as a valid path although no signature was checked", what, FuncName(f), why)
+		d = fmt.Sprintf("%s is admitted on the word of %s, which is not an exact membership test: %s — what is handed on as a valid path need not be a certificate of the trusted pool (a look-alike with the subject and key of a root, say), and no signature was checked", what, FuncName(f), why)
 	}
 	r.Check(key, why == "", r.Where(best.c), d)
 	if os.Getenv("CTVERIF_C02DEBUG") != "" {
@@ -388,8 +388,33 @@ func (m *c02Membership) exact(f *ssa.Function, pi, ci, depth int) string {
 		}
 		return v == certP
 	}
+	// the predicate only looks: it neither writes the pool nor hands it to anything that is not such a predicate
+	var writes []string
+	rootsInPool := func(addr ssa.Value) bool {
+		for i := 0; i < 8; i++ {
+			switch a := addr.(type) {
+			case *ssa.FieldAddr:
+				addr = a.X
+			case *ssa.IndexAddr:
+				addr = a.X
+			case *ssa.UnOp:
+				addr = a.X
+			default:
+				return addr == poolP
+			}
+		}
+		return false
+	}
 	eachInstr(f, func(in ssa.Instruction) {
 		switch x := in.(type) {
+		case *ssa.Store:
+			if rootsInPool(x.Addr) {
+				writes = append(writes, "it writes "+clipStr(r.D.D(x.Addr), 80)+" at "+r.Where(x))
+			}
+		case *ssa.MapUpdate:
+			if rootsInPool(x.Map) {
+				writes = append(writes, "it updates "+clipStr(r.D.D(x.Map), 80)+" at "+r.Where(x))
+			}
 		case *ssa.Lookup:
 			fv := poolField(x.X)
 			if fv == nil {
@@ -446,31 +471,42 @@ func (m *c02Membership) exact(f *ssa.Function, pi, ci, depth int) string {
 				note("equality of Raw with an element of " + fv.Name())
 			default:
 				g := x.Call.StaticCallee()
-				if g == nil || len(g.Blocks) == 0 || g == f {
-					return
-				}
 				gp, gc := -1, -1
-				for i, a := range args {
+				for i, a := range CallArgs(x) {
 					if a == poolP {
 						gp = i
 					} else if a == certP {
 						gc = i
 					}
 				}
-				if gp < 0 || gc < 0 {
+				if gp < 0 {
+					return
+				}
+				if g == nil || len(g.Blocks) == 0 || g == f || gc < 0 || x.Call.IsInvoke() {
+					writes = append(writes, "it hands the pool to "+CalleeOf(x)+" at "+r.Where(x)+", which is not followed")
 					return
 				}
 				if rs := g.Signature.Results(); rs.Len() != 1 || TypeName(rs.At(0).Type()) != "bool" {
+					writes = append(writes, "it hands the pool to "+CalleeOf(x)+" at "+r.Where(x)+", which is not a membership test")
 					return
 				}
 				if w := m.exact(g, gp, gc, depth+1); w != "" {
 					refused = append(refused, FuncName(g)+" is not exact ("+clipStr(w, 160)+")")
+					writes = append(writes, "it hands the pool to "+FuncName(g)+" at "+r.Where(x)+", which is not an exact membership test")
 					return
 				}
 				witness[x] = true
 			}
 		}
 	})
+	if len(writes) > 0 && len(witness) > 0 {
+		// (a call of a predicate that is not exact is reported below as such, where it decides the answer)
+		for _, w := range writes {
+			if !strings.Contains(w, "not an exact membership test") {
+				return res("a membership test must only look, but " + w + " (undecided: the pool may be changed by the question)")
+			}
+		}
+	}
 	if len(witness) == 0 {
 		w := FuncName(f) + " makes no exact comparison of the certificate with the contents of the pool (a probe of a map of the pool keyed by a SHA-2 hash of its Raw, or equality of Raw with an element of a list of the pool)"
 		if len(refused) > 0 {
